@@ -54,7 +54,7 @@ PROPS = {
     "C01": dict(
         bin="c01",
         lanes=lanes(quick_scale=20.0, thorough_scale=120.0,
-                    miri=dict(light=0.004, scale=0.002, widths=MIRI_W), miri_quick=False),
+                    miri=dict(light=0.004, scale=0.002, widths=MIRI_W)),
         primary_lane="checked",
         rule="Cases are (operation group, width, operand tuple): a fixed directed corpus (all pairs at BITS<=4, "
              "boundary values against complements/negations/neighbours, carry and borrow chains over every limb range) "
@@ -66,7 +66,7 @@ PROPS = {
     "C02": dict(
         bin="c02",
         lanes=lanes(quick_scale=12.0, thorough_scale=80.0,
-                    miri=dict(light=0.003, scale=0.002, widths=MIRI_W), miri_quick=False),
+                    miri=dict(light=0.003, scale=0.002, widths=MIRI_W)),
         primary_lane="checked",
         hooks_expected=["ADDMUL_TRIM_A_LO", "ADDMUL_TRIM_A_HI", "ADDMUL_TRIM_B_LO", "ADDMUL_TRIM_B_HI",
                         "ADDMUL_RET_EMPTY_OPERAND", "ADDMUL_RET_EMPTY_LHS", "ADDMUL_SWAP", "ADDMUL_FULL_ROW",
@@ -96,7 +96,7 @@ PROPS = {
     "C05": dict(
         bin="c05",
         lanes=lanes(quick_scale=4.0, thorough_scale=20.0,
-                    miri=dict(light=0.0008, scale=0.003, widths=MIRI_W), miri_quick=False),
+                    miri=dict(light=0.0008, scale=0.003, widths=MIRI_W)),
         primary_lane="checked",
         rule="Cases: shl / shr (overflowing, checked, saturating, wrapping, arithmetic_shr, and << >> <<= >>= for usize,u8,u16,"
              "u32,u64,isize,i8,i16,i32,i64 by value and by reference whenever the amount fits the type), rotations, and "
@@ -121,7 +121,7 @@ PROPS = {
     "C07": dict(
         bin="c07",
         lanes=lanes(quick_scale=8.0, thorough_scale=50.0,
-                    miri=dict(light=0.002, scale=0.002, widths=MIRI_W), miri_quick=False),
+                    miri=dict(light=0.002, scale=0.002, widths=MIRI_W)),
         primary_lane="checked",
         rule="Cases: from.<T> for bool,u8..u128,usize,i8..i128,isize (try_from incl. error kind, bits field and wrapped payload; "
              "from; wrapping_from; saturating_from), to_prims (try_from by ref and value, to, wrapping_to, saturating_to for all "
@@ -211,7 +211,7 @@ PROPS = {
     "C11": dict(
         bin="c11",
         lanes=lanes(quick_scale=60.0, thorough_scale=600.0,
-                    miri=dict(light=0.02, scale=0.01), miri_quick=False),
+                    miri=dict(light=0.02, scale=0.01)),
         primary_lane="checked",
         hooks_expected=["REDC_MUL_CARRY_TRACKED", "REDC_MUL_CARRY_IGNORED", "REDC_MUL_CARRY_SET", "REDC_SQ_WIDE", "REDC_SQ_NARROW",
                         "REDC_SQ_OUTER_0", "REDC_SQ_OUTER_1", "REDC_SQ_OUTER_2", "REDC_SQ_CARRY_HI", "REDC_REDUCE_SUB_CARRY",
@@ -225,7 +225,7 @@ PROPS = {
     "C12": dict(
         bin="c12",
         lanes=lanes(quick_scale=6.0, thorough_scale=40.0,
-                    miri=dict(light=0.002, scale=0.0004, widths=[1, 7, 64, 65, 128, 129, 256, 320]), miri_quick=False),
+                    miri=dict(light=0.002, scale=0.0004, widths=[1, 7, 64, 65, 128, 129, 256, 320])),
         primary_lane="checked",
         hooks_expected=["LEHMER_FROM_LE64", "LEHMER_FROM_LE128", "LEHMER_FROM_GT128", "PREFIX_RET_A1_SMALL", "PREFIX_RET_A2_SMALL_OK",
                         "PREFIX_RET_A2_SMALL_ID", "PREFIX_RET_EVEN_I2", "PREFIX_RET_EVEN_I1", "PREFIX_RET_EVEN_I0",
@@ -241,7 +241,10 @@ PROPS = {
     ),
     "C13": dict(
         bin="c13",
-        lanes=lanes(quick_scale=5.0, thorough_scale=30.0),
+        # Miri only interprets the `pow` operation (exact integer code); log and root go through f64 exp2/log2,
+        # which Miri perturbs on purpose. AddressSanitizer runs the whole workload natively.
+        lanes=lanes(quick_scale=5.0, thorough_scale=30.0, asan=True,
+                    miri=dict(light=0.02, scale=0.003, widths=[0, 1, 7, 63, 64, 65, 128, 129, 192, 256], extra=dict(ops="pow"))),
         primary_lane="checked",
         hooks_expected=["LOG_DECREMENT", "LOG_OVERFLOW_DECREMENT", "ROOT_FIXPOINT", "ROOT_STOP_INCREASE", "ROOT_CAPPED_INCREASE",
                         "ROOT_DECREASE"],
@@ -251,7 +254,7 @@ PROPS = {
              "b^e and k^d with neighbours +-1, powers of ten, 53/54-bit heads with all-zero / all-one tails (f64 rounding "
              "boundaries). Everything enumerated at BITS<=4. Termination is decided by the per-call loop cap (10^6 iterations) of "
              "the hooks, never by wall-clock. Non-trivial: base/value >= 2 and exponent/degree >= 2.",
-        assumptions=COMMON_ASSUME + ["never run under Miri: Miri perturbs exp2/log2 results, which would create executions the real program cannot have"],
+        assumptions=COMMON_ASSUME + ["log and root are never run under Miri: Miri perturbs exp2/log2 results, which would create executions the real program cannot have; the Miri lanes run the pow operation only"],
     ),
     "C16": dict(
         bin="c16",
@@ -289,7 +292,8 @@ PROPS = {
         lanes=dict(
             quick=[dict(lane="checked", shards=8, scale=3.0), dict(lane="release", shards=8, scale=3.0)]
                   + [dict(lane="release", shards=16, scale=1.0, extra=dict(f32sweep=w), tag=f"f32sweep{w}") for w in (7, 64)],
-            thorough=[dict(lane="checked", shards=16, scale=15.0), dict(lane="release", shards=16, scale=15.0)]
+            thorough=[dict(lane="checked", shards=16, scale=15.0), dict(lane="release", shards=16, scale=15.0),
+                      dict(lane="asan", shards=16, scale=4.0)]
                      + [dict(lane="release", shards=16, scale=1.0, extra=dict(f32sweep=w), tag=f"f32sweep{w}") for w in (7, 25, 64, 128)]),
         primary_lane="checked",
         rule="Cases: to_float (f64::from / f32::from by value and reference: result is one of the two floats around the exact "
@@ -305,7 +309,7 @@ PROPS = {
     "C20": dict(
         bin="c20",
         lanes=lanes(quick_scale=3.0, thorough_scale=15.0,
-                    miri=dict(light=0.0005, scale=0.0003, widths=[0, 1, 7, 64, 65, 128, 256]), miri_quick=False),
+                    miri=dict(light=0.0005, scale=0.0003, widths=[0, 1, 7, 64, 65, 128, 256])),
         primary_lane="checked",
         rule="Differential cases: for every width and operand tuple each facade (six operator shapes of + - * / % & | ^, unary - !, "
              "<< >> for 10 integer amount types and Uint amounts, every forwarded Bits method and operator, every num-traits impl, "
@@ -436,21 +440,21 @@ SANI = {
     "C08": "Miri shard in quick (raw pointer reads in the whole-limb fast path, byte views); Miri dev+release, AddressSanitizer and valgrind memcheck in thorough",
     "C09": "Miri shard in quick (MaybeUninit format buffer); Miri dev+release and valgrind memcheck in thorough",
     "C10": "Miri shard in quick (from_raw_parts_mut product buffer in mul_mod); Miri dev+release in thorough",
-    "C11": "Miri dev+release in thorough",
-    "C12": "Miri dev+release in thorough",
-    "C13": "none (float-dependent; Miri would perturb exp2/log2)",
+    "C11": "Miri shard in quick; Miri dev+release in thorough",
+    "C12": "Miri shard in quick; Miri dev+release in thorough",
+    "C13": "Miri shard in quick on the pow operation only (log and root are float-dependent: Miri would perturb exp2/log2); Miri dev+release (pow) and AddressSanitizer (everything) in thorough",
     "C16": "Miri shard in quick (as_le_slice_mut byte reversal in the RLP encoders, borsh, bytemuck); Miri dev+release and AddressSanitizer in thorough",
     "C17": "Miri shard in quick; Miri dev+release and AddressSanitizer in thorough; aborts (allocation failure) are caught by running shards as supervised subprocesses with a per-case journal",
-    "C18": "none (float-dependent; Miri would perturb exp2/log2)",
-    "C20": "Miri dev+release in thorough",
+    "C18": "AddressSanitizer in thorough; no Miri (float-dependent: Miri would perturb exp2/log2 and create executions the real program cannot have)",
+    "C20": "Miri shard in quick; Miri dev+release in thorough",
     "C04": "Miri shard in quick (byte views, rand fill through the limb array); Miri dev+release in thorough",
     "C19": "none (the observable is the compiler's outcome)",
-    "C01": "Miri (dev + release) in thorough",
-    "C02": "Miri (dev + release) in thorough",
+    "C01": "Miri shard in quick; Miri dev+release in thorough",
+    "C02": "Miri shard in quick; Miri dev+release in thorough",
     "C03": "Miri shard in quick; Miri dev+release and AddressSanitizer in thorough",
-    "C05": "Miri in thorough",
+    "C05": "Miri shard in quick; Miri dev+release in thorough",
     "C06": "Miri shard in quick (raw byte view behind byte()); Miri dev+release in thorough",
-    "C07": "Miri in thorough",
+    "C07": "Miri shard in quick; Miri dev+release in thorough",
     "C14": "Miri shard in quick (unchecked indexing in div_nx1/div_nx2 and the reciprocal table); Miri dev+release and AddressSanitizer in thorough",
     "C15": "Miri shard in quick; Miri dev+release in thorough (`assume!` = unreachable_unchecked in release)",
 }
